@@ -124,7 +124,11 @@ func checkMessageCodec(o *an.Obl, p *an.Prog, T *types.Named, name, encID, decID
 	ftype := an.StructFieldTypes(T)
 	// TLV record numbers handed to the stream on each side
 	ne, nd := tlvNumbers(p, T, enc, true), tlvNumbers(p, T, dec, false)
-	if len(ne) > 0 && len(nd) > 0 {
+	pureTLV := map[string]string{
+		"ChannelAnnouncement2": "pure-TLV message: Decode extracts through the record producers of the same allRecords() list Encode uses",
+		"NodeAnnouncement2":    "pure-TLV message: Decode extracts through the record producers of the same allRecords() list Encode uses",
+	}
+	if _, tabled := pureTLV[name]; (len(ne) > 0 && len(nd) > 0) || ((len(ne) > 0 || len(nd) > 0) && !tabled) {
 		o.Site("%s: tlv types enc=%v dec=%v", name, keys(ne), keys(nd))
 		for _, n := range an.SetDiff(ne, nd) {
 			o.FailAt(name+"#tlv-enc-only-"+n, enc.Where(enc.Body.Pos()), "%s: Encode emits a record of TLV type %s that Decode never extracts", name, n)
@@ -275,7 +279,15 @@ func runC10b(r *an.Run) {
 		func(o *an.Obl) {
 			f := p.Func("lnwire.WriteMessage")
 			succ := f.StrictSuccessReturns()
-			guardedAll(o, f, succ, an.Cmp(an.Any(), an.LE, an.PkgVar("lnwire", "MaxMsgBody"), "payload length <= MaxMsgBody"))
+			guardedAll(o, f, succ, an.CmpX(an.LocalNamed("lenp"), an.LE, an.PkgVar("lnwire", "MaxMsgBody"), "payload length <= MaxMsgBody"))
+			// the payload length is everything written after the start minus the type bytes
+			for _, s := range f.Assigns(an.LocalNamed("lenp"), false) {
+				c := f.Canon(s.Node.(*ast.AssignStmt).Rhs[0])
+				o.Site("payload length = %s", c)
+				if !strings.HasPrefix(c, "(($p0.Len() - $p0.Len()) - $p0.Write(") {
+					o.FailAt(f.ID+"#payload-length", s.Where(), "the payload length is computed as %s, expected buf.Len() - oldByteSize - msgTypeBytes", c)
+				}
+			}
 			mustPass(o, f, "msg.Encode", f.Calls(an.CalleeNamed("Encode"), false), an.OkErrNil, succ)
 			if v := constValue(p, "lnwire", "MaxMsgBody"); v != "65533" {
 				o.FailAt("lnwire.MaxMsgBody", "", "MaxMsgBody = %s, expected 65533 (65535 minus the 2-byte type)", v)
